@@ -130,3 +130,32 @@ Proof.
   rewrite (H n n Hw Hw) in Hp. discriminate.
 Qed.
 Print Assumptions C01_equal_copy_refuted.
+
+(* ------------------------------------------------------------------ the tree as it is now *)
+(* With the fixes applied so far ([settled]: only Copy still reads ints through AsInt) the premise
+   [eq_total] is gone for DeepEqual, and Copy reproduces every well-formed node except exactly the
+   known finding copy_uint_fails: a ROOT int node above MaxInt64 (children are handed over by
+   AssignNode and are not affected). *)
+Theorem C01_equal_copy_settled :
+  (forall x y, deep_equal settled x y = ROk (dm_goeq (abs x) (abs y))) /\
+  (forall n, wf n -> (forall z, n = NUint z -> (z < two63z)%Z) ->
+     exists n', copy settled PAny n = ROk n' /\ abs n' = abs n /\ wf n') /\
+  (forall n, wf n -> kind_of n = KMap -> exists n', copy settled PMap n = ROk n' /\ abs n' = abs n /\ wf n') /\
+  (forall n, wf n -> kind_of n = KList -> exists n', copy settled PList n = ROk n' /\ abs n' = abs n /\ wf n') /\
+  (forall p z, (two63z <= z)%Z -> copy settled p (NUint z) = RErr EOther).
+Proof.
+  split; [exact settled_equal|split; [exact settled_copy|split; [exact (copy_map settled)|split;
+    [exact (copy_list settled)|exact copy_uint_fails]]]].
+Qed.
+Print Assumptions C01_equal_copy_settled.
+
+Definition C01_copy_full_settled : Prop :=
+  forall n, wf n -> exists n', copy settled PAny n = ROk n' /\ abs n' = abs n.
+
+(* refuted by the witness of copy_uint_fails, and by nothing else (C01_equal_copy_settled) *)
+Theorem C01_copy_full_refuted : ~ C01_copy_full_settled.
+Proof.
+  intros H. destruct (H (NUint two63z) (wf_uint two63z)) as (n' & Hc & _).
+  rewrite (copy_uint_fails PAny two63z) in Hc; [discriminate|apply Z.le_refl].
+Qed.
+Print Assumptions C01_copy_full_refuted.
